@@ -175,7 +175,7 @@ def expected(letter, k, env, st, pieces):
         return [('lit', 'Before Christ' if neg else 'Anno Domini')]
     if letter == 'y':
         if k == 2:
-            return None     # two-digit year: shape only (R1)
+            return 'yy'
         neg = need(env.get('neg_year'), 'the sign of the year')
         return ([('lit', '-')] if neg else []) + [('sym', k, -1 if neg else 1, need(env.get('Y'), 'the year'), 0)]
     if letter == 'q':
@@ -310,6 +310,35 @@ def check_zone(letter, k, env, st, pieces, others=()):
             raise Mismatch(f'zone field range [{l}, {h}] exceeds [{a}, {b}]')
     if not good:
         raise Mismatch('the printed fields are not hour = |offset| / 3600, minute = |offset| % 3600 / 60, second = |offset| % 60 (or an optional field is dropped while it can be non-zero)')
+
+
+def check_yy(R, env, st, pieces):
+    """yy: the last two digits of the year (the year itself when its text has at most two characters), zero padded to 2"""
+    I = R.I
+    nums = [p for p in pieces if p[0] in ('zp', 'num')]
+    if len(nums) != 1 or nums[0][0] != 'zp' or nums[0][2] != 2:
+        raise Mismatch('expected one number zero padded to 2 digits')
+    v = nums[0][1]
+    Y = need(env.get('Y'), 'the year')
+    ident = I.parsed_from.get(v)
+    if ident is None:
+        if not (D.aff_equiv(D.aff_of(v), D.aff_of(Y), st=st) or D.aff_equiv(D.aff_of(v), D.aff_scale(D.aff_of(Y), -1), st=st)):
+            raise Mismatch('the number is neither the year nor read from its last two digits')
+        return
+    so = I.slice_of.get(ident)
+    if so is None:
+        raise Mismatch('the two-digit year is parsed from a text that is not a part of the year')
+    base, a, e = so
+    if I.int_text.get(base) != Y:
+        raise Mismatch('the two-digit year is not taken from the decimal text of the year')
+    # the slice is [len - 2, len): find the length of the base text through the end bound
+    ln = D.aff_add(D.aff_of(e), D.aff_of(a), -1)
+    if D.eval_aff(st, ln) != (2, 2):
+        raise Mismatch(f'the digits taken from the year are not exactly two ({D.eval_aff(st, ln)})')
+    from ..models import strv_of
+    # end == length of the text: the slice ends where the text ends (an open-ended range `[len-2..]`)
+    if I.slice_end_is_len.get(ident) is not True:
+        raise Mismatch('the two digits are not the last two of the year')
 
 
 def env_of_zone(st, o):
@@ -462,6 +491,8 @@ def check(ctx):
                             exp = None
                         if exp == 'zone':
                             check_zone(letter, k, env, st, pieces, outs)
+                        elif exp == 'yy':
+                            check_yy(R, env, st, pieces)
                         elif exp is not None:
                             compare(exp, st, pieces)
                         elif any(p[0] == 'opq' for p in pieces):
